@@ -76,27 +76,51 @@ RATES
  10 rate = PARM(1) * M
  20 SAVE rate * TIME
  -end
+ Kd_Br
+ -start
+ 10 rate = PARM(1) * M
+ 20 SAVE rate * TIME
+ -end
+ Kd_Li
+ -start
+ 10 rate = PARM(1) * M
+ 20 SAVE rate * TIME
+ -end
+ Kd_F
+ -start
+ 10 rate = PARM(1) * M
+ 20 SAVE rate * TIME
+ -end
 END
 """
-RATE_FORMULA = {"Kd_Na": "NaCl", "Kd_K": "KCl", "Kd_Ca": "CaCl2"}
+RATE_FORMULA = {"Kd_Na": "NaCl", "Kd_K": "KCl", "Kd_Ca": "CaCl2", "Kd_Br": "KBr", "Kd_Li": "LiCl", "Kd_F": "NaF"}
+DEF_RATES = ["Kd_Ca", "Kd_K", "Kd_Na"]          # used by KINETICS definitions; the others only arrive through KINETICS_MODIFY
+# components that *_MODIFY adds to an existing entry (field "add"): they carry elements that are rare in the rest of the store
+PP_ADD = ["Barite", "Fluorite", "Celestite", "Witherite", "Quartz", "Rhodochrosite", "Smithsonite", "Otavite", "Cerussite", "Sylvite"]
+GAS_ADD = ["H2S(g)", "N2(g)", "Mtg(g)", "NH3(g)"]
+SS_ADD = ["MnZn", "PbCd"]
+KIN_ADD = ["Kd_Br", "Kd_Li", "Kd_F"]
+EXCH_ADD = {"KX": ("K", 1), "SrX2": ("Sr", 2), "LiX": ("Li", 1), "BaX2": ("Ba", 2)}
 SALTS = {"NaCl": {"Na": 1, "Cl": 1}, "KCl": {"K": 1, "Cl": 1}, "CaCl2": {"Ca": 1, "Cl": 2}, "MgCl2": {"Mg": 1, "Cl": 2},
          "Na2SO4": {"Na": 2, "S(6)": 1}, "NaHCO3": {"Na": 1, "C(4)": 1}, "SrCl2": {"Sr": 1, "Cl": 2}}
-SS_SETS = {"CaSr": ["Calcite", "Strontianite"], "BaSr": ["Barite", "Celestite"]}
+SS_SETS = {"CaSr": ["Calcite", "Strontianite"], "BaSr": ["Barite", "Celestite"], "MnZn": ["Rhodochrosite", "Smithsonite"],
+           "PbCd": ["Cerussite", "Otavite"]}
+DEF_SS = ["BaSr", "CaSr"]
 PP_POOL = ["Calcite", "Gypsum", "CO2(g)", "Quartz", "Celestite", "Barite"]
 REACTANTS = ["NaCl", "KCl", "CaCl2", "HCl", "NaOH", "CO2", "Na2SO4"]
 MODS = {
     "SOLUTION": ["temp", "pH", "mass_water", "cb", "pressure", "tot"],
-    "EQUILIBRIUM_PHASES": ["moles", "si"],
-    "EXCHANGE": ["exchange_gammas", "la"],
+    "EQUILIBRIUM_PHASES": ["moles", "si", "add"],
+    "EXCHANGE": ["exchange_gammas", "la", "add"],
     "SURFACE": ["thickness", "la", "grams"],
-    "GAS_PHASE": ["volume", "total_p", "moles"],
-    "SOLID_SOLUTIONS": ["moles", "a0"],
-    "KINETICS": ["m", "step_divide", "cvode_steps", "tol"],
+    "GAS_PHASE": ["volume", "total_p", "moles", "add"],
+    "SOLID_SOLUTIONS": ["moles", "a0", "add"],
+    "KINETICS": ["m", "step_divide", "cvode_steps", "tol", "add"],
     "REACTION": ["steps", "count_steps"],
     "REACTION_TEMPERATURE": ["temps"],
     "REACTION_PRESSURE": ["pressures", "count"],
 }
-MOD_RANGE = {"temp": (5.0, 45.0), "pH": (5.0, 9.0), "mass_water": (0.5, 2.0), "cb": (-1e-4, 1e-4), "pressure": (1.0, 10.0),
+MOD_RANGE = {"add": (1e-3, 0.1), "temp": (5.0, 45.0), "pH": (5.0, 9.0), "mass_water": (0.5, 2.0), "cb": (-1e-4, 1e-4), "pressure": (1.0, 10.0),
              "tot": (1e-4, 1e-2), "moles": (0.0, 1.0), "si": (-1.0, 1.0), "exchange_gammas": (0, 1), "la": (-3.0, 3.0),
              "thickness": (1e-9, 1e-7), "grams": (0.5, 5.0), "volume": (0.5, 5.0), "total_p": (0.1, 5.0), "a0": (0.0, 1.0),
              "m": (1e-4, 1.0), "step_divide": (1, 10), "cvode_steps": (10, 200), "tol": (1e-10, 1e-6),
@@ -484,6 +508,34 @@ def mod_target(md, ent):
         v = int(v)
     ent = ent or {}
     comps = ent.get("component") if isinstance(ent.get("component"), dict) else {}
+    if f == "add":
+        # a component that the entry does not have yet is added with the RAW syntax of DUMP ("new components added", RELEASE.TXT
+        # svn 3727); only the new component may appear (plus the derived lists in WORKSPACE)
+        def choose(pool, have):
+            cand = [x for x in pool if x not in have] or list(pool)
+            return cand[idx % len(cand)]
+        if k == "EQUILIBRIUM_PHASES":
+            c = choose(PP_ADD, comps)
+            return [" -component %s" % c, "  -si 0", "  -moles %s" % fmt(v)], "/component/%s/moles" % c, ["/component/%s" % c], v
+        if k == "GAS_PHASE":
+            c = choose(GAS_ADD, comps)
+            return [" -component %s" % c, "  -moles %s" % fmt(v)], "/component/%s/moles" % c, ["/component/%s" % c], v
+        if k == "SOLID_SOLUTIONS":
+            sss = ent.get("solid_solution") if isinstance(ent.get("solid_solution"), dict) else {}
+            sname = choose(SS_ADD, sss)
+            c1, c2 = SS_SETS[sname]
+            return ([" -solid_solution %s" % sname, "  -component %s" % c1, "   -moles %s" % fmt(v), "  -component %s" % c2,
+                     "   -moles %s" % fmt(v / 2)], "/solid_solution/%s/component/%s/moles" % (sname, c1), ["/solid_solution/%s" % sname], v)
+        if k == "KINETICS":
+            c = choose(KIN_ADD, comps)
+            return ([" -component %s" % c, "  -namecoef", "   %s 1" % RATE_FORMULA[c], "  -m %s" % fmt(v), "  -m0 %s" % fmt(v), "  -tol 1e-10",
+                     "  -d_params", "   0.001"], "/component/%s/m" % c, ["/component/%s" % c], v)
+        if k == "EXCHANGE":
+            c = choose(sorted(EXCH_ADD), comps)
+            el, z = EXCH_ADD[c]
+            return ([" -component %s" % c, "  -totals", "   %s %s" % (el, fmt(v)), "   X %s" % fmt(v * z), "  -la 0", "  -charge_balance 0",
+                     "  -formula_z 0"], "/component/%s/totals/%s" % (c, el), ["/component/%s" % c], v)
+        raise OutOfDomain("add " + k)
     if k == "SOLUTION":
         if f == "tot":
             els = [e for e in (ent.get("totals") or {}) if "(" not in e and e not in ("H", "O")] if isinstance(ent.get("totals"), dict) else []
@@ -671,10 +723,10 @@ def params(draw, kind, M):
             p["eq"] = draw(st.sampled_from(sols))
         return p
     if kind == "SOLID_SOLUTIONS":
-        names = draw(st.lists(st.sampled_from(sorted(SS_SETS)), min_size=1, max_size=2, unique=True))
+        names = draw(st.lists(st.sampled_from(DEF_SS), min_size=1, max_size=2, unique=True))
         return {"sets": [[nm, draw(_lg(1e-3, 0.1)), draw(_lg(1e-4, 0.01))] for nm in names]}
     if kind == "KINETICS":
-        rs = draw(st.lists(st.sampled_from(sorted(RATE_FORMULA)), min_size=1, max_size=2, unique=True))
+        rs = draw(st.lists(st.sampled_from(DEF_RATES), min_size=1, max_size=2, unique=True))
         return {"rates": [[r, draw(_lg(1e-4, 1e-2)), draw(_lg(1e-5, 1e-2))] for r in rs], "time": draw(_lg(1.0, 50.0)),
                 "nsteps": draw(st.sampled_from([1, 1, 2]))}
     if kind == "MIX":
@@ -876,6 +928,8 @@ def op_modify(draw, M):
         k = draw(st.sampled_from([x for x in KINDS if x != "MIX"]))
         n = draw(number())
     f = draw(st.sampled_from(MODS[k]))
+    if "add" in MODS[k] and draw(st.integers(0, 2)) == 0:
+        f = "add"
     lo, hi = MOD_RANGE[f]
     v = draw(st.integers(lo, hi)) if f in INT_FIELDS else draw(_un(lo, hi, 4) if lo <= 0 else _lg(lo, hi, 4))
     md = {"kind": k, "n": None if (n == 1 and draw(st.integers(0, 3)) == 0) else n, "field": f, "idx": draw(st.integers(0, 3)), "value": v}
@@ -956,7 +1010,7 @@ def op_seed(draw, M):
 
 
 OPS = ["define", "define", "define", "react", "react", "react", "copy", "copy", "copy", "copy", "copy", "delete", "delete", "delete",
-       "delete", "modify", "modify", "mixkw", "run_cells", "run_cells", "use_missing", "save_noop", "hidden"]
+       "delete", "modify", "modify", "modify", "mixkw", "run_cells", "run_cells", "use_missing", "save_noop", "hidden"]
 
 
 @st.composite
